@@ -54,6 +54,7 @@ Verdict(ev) ==
             (IF Has(ev, "exc") THEN {"exc"} ELSE {})
             \cup (IF ~Has(ev, "exc") /\ AsBag(post) # AsBag(MergeFrom(pre, AsDoc(ev.pre_other))) THEN {"merge-result"} ELSE {})
             \cup (IF NoAi(AsDoc(ev.post_other)) # NoAi(AsDoc(ev.pre_other)) THEN {"merge-changed-other"} ELSE {})
+            \cup (IF ~Has(ev, "exc") /\ Has(ev, "data_styles_wrong") /\ ev.data_styles_wrong # <<>> THEN {"merged-data-style-not-found-once"} ELSE {})
        ELSE IF o.op = "set_table_displayed" THEN
             (IF Has(ev, "exc") THEN {"exc"} ELSE {})
             \* a COPY of the table's style becomes the table's new automatic style: nothing is lost or renamed
